@@ -8,6 +8,11 @@ def R(pkg, run, quick, thorough, **kw):
 LAB = "./internal/zzverif/lab"
 
 CHECKS = {
+    "C03": {
+        "runs": [
+            R(LAB, "^TestC03Tunnel", {"checks": 2500, "timeout": 900}, {"checks": 1500, "shards": 16, "timeout": 3000}, race=True),
+        ],
+    },
     "C13": {
         "runs": [
             R(LAB, "^TestC13Accounting", {"checks": 400, "timeout": 600}, {"checks": 1500, "shards": 12, "timeout": 2400}, race=True),
@@ -78,6 +83,10 @@ CHECKS = {
 LEVELS = {"C12": "fault_enumeration"}  # default: exploration
 
 RULES = {
+    "C03": "rapid draws a tunnel script: routing direct / upstream HTTP / upstream HTTPS / upstream SOCKS5 / custom ConnectFunc / HTTP/1.1 Upgrade (GET -> 101), proxy listener plain or TLS; per direction: early data (client: coalesced with the request head in one segment; target: sent before reading anything or, for Upgrade, in the same write as the 101; upstream proxy: part of the early bytes in the same write as its own 200 / SOCKS reply), 0-5 writes with sizes from {1, 2, 100, 1000, 4095-4097, 16384, 32767-32769, 65536, 100000}, "
+           "gates (continue only after the peer has received everything written so far) that vary the interleaving of the two copy directions, and 0-2 writes made after the peer's end-of-stream was seen; half-close order client-first / target-first / simultaneous / client closes the socket. Each case gets a fresh target listener. "
+           "Oracle: byte i of direction d is a fixed function of (case, d, i); both endpoints verify the stream incrementally (first bad offset), count bytes, require end-of-stream after the last byte, require writes after the peer's half-close to arrive, and require the target to observe EOF at the end; bound 15 s with one retry. "
+           "Non-trivial = early data present, or a direction above 32 KiB, or flow continuing after a half-close. Distinct = distinct scripts.",
     "C13": "(1) model-based history in the fault laboratory: rapid draws 1-4 batches of 1-5 steps; the steps of a batch run concurrently on their own connections; a step is a C12 exchange (any route / method / fault, with follow-up request) or a special path: client abort during upload, client abort during download (origin gated), Upgrade -> 101 tunnel, HTTP/1.0 CONNECT, connect-and-close, half a request head. After every batch the harness waits until each proxy has accepted every connection opened and listener_cx_active is 0, then gathers the four registries: every http_requests_in_flight{method} series is 0; "
            "http_requests_total{method,code} grew by exactly the requests whose head was sent, with the code the client was sent (requests that saw no status line may land on any code); listener_cx_total grew by the connections opened; at the end, after closing idle upstream connections, dialer_cx_active is 0 and dialer_cx_total / dialer_errors_total equal the successful / failed dials of the dial log. "
            "(2) conntrack.Builder unit property on loopback TCP: generated Write / ReadFrom / peer-write sequences, then 1-8 concurrent Close callers: OnClose exactly once, Tx/Rx equal the bytes moved, observer lookup works. Non-trivial = a history with >= 3 different paths incl. a fault or abort; >= 2 concurrent closers with OnClose. Distinct = distinct histories / op sequences.",
@@ -124,6 +133,8 @@ RULES = {
 }
 
 ASSUMPTIONS = {
+    "C03": ["quick tier payloads stay below ~0.5 MiB per direction (thorough: same sizes, many more cases, race detector)",
+            "the interleaving of the two copy goroutines inside the proxy is varied by gates, not controlled"],
     "C13": ["quiescence is established black-box: all harness sockets closed, every opened connection accepted, listener_cx_active = 0, then the registry is read once more (Gather is not atomic across families)",
             "a request whose client saw no status line may be booked under any status code, but exactly once",
             "shutdown is excluded (C11)"],
@@ -167,6 +178,11 @@ ASSUMPTIONS = {
 # MANIFEST texts
 
 META = {
+    "C03": {
+        "technique": "property-based testing (rapid) over generated tunnel scripts with gate-controlled schedules; round-trip oracle with position-determined payload verified at both scripted endpoints",
+        "text": "Every generated tunnel (six routings x plain/TLS listener) is driven from both ends by the harness; loss, duplication, reordering, leaked reply bytes, missing end-of-stream, premature close and unpropagated half-close are all detected with the first bad offset. 2500 scripts quick, 24000 under -race thorough.",
+        "note": "Catches in sensitivity runs: skipped drainBuffer, Close instead of CloseWrite, buffered reader in dialvia.",
+    },
     "C13": {
         "technique": "model-based property testing (rapid): generated concurrent exchange histories with injected faults and aborts, invariant over the Prometheus registries at quiescent points; separate rapid property for conntrack with concurrent closers (race detector in thorough)",
         "text": "The model knows how many connections were opened and which requests were sent with which outcome; after each batch the books of every proxy must balance exactly per method and status, all gauges must be zero and the dialer's totals must equal the dial log. 400 histories + 1500 conntrack cases quick; 18000 histories and 80000 conntrack cases under -race thorough.",
